@@ -9,6 +9,9 @@ void h_iov_advance(void) { nni_aio *a; size_t n; VP_HAVOC_GHOSTS(); nni_aio_iov_
  * and then b bytes leaves exactly the vector that consuming a+b bytes at once
  * leaves, and the left-over counts add up -- for every vector with existing
  * buffers and all a, b (a+b a byte count, i.e. not wrapping size_t). */
+#ifndef LEMMA_NB
+#define LEMMA_NB NNI_AIO_MAX_IOV
+#endif
 static void
 vp_mk_vec(nni_aio *x)
 {
@@ -29,7 +32,7 @@ h_lemma_split(void)
 {
 	nni_aio x, y; /* uninitialised = arbitrary */
 	size_t  a, b, ra, rb, rab;
-	if (x.a_nio > NNI_AIO_MAX_IOV || b > SIZE_MAX - a) {
+	if (x.a_nio > LEMMA_NB || b > SIZE_MAX - a) {
 		return;
 	}
 	vp_mk_vec(&x);
